@@ -6,6 +6,7 @@ monitors that evaluate the property predicate on the real execution:
   A  c20_parse.py   playlists.parse                      <-> Untrusted/Playlists.v
   B  c20_unwrap.py  stream.actor._unwrap_stream (+ http.download) <-> Untrusted/Unwrap.v
   C  c20_tags.py    audio.tags.convert_tags_to_track      <-> Untrusted/Tags.v
+  D  c20_transcr.py the transcribed Python built-ins, each against the real one
 """
 
 import logging
@@ -14,6 +15,7 @@ from common import vlib
 
 import c20_parse
 import c20_tags
+import c20_transcr
 import c20_unwrap
 
 AREA = "Untrusted"
@@ -123,3 +125,4 @@ def run(chk):
     c20_parse.run(chk)
     c20_unwrap.run(chk)
     c20_tags.run(chk)
+    c20_transcr.run(chk)
